@@ -48,7 +48,9 @@ theorem calibrated_bounded (hsm : SoftmaxLike sm) (hsg : SigmoidLike sg) (hv : V
 /-- **C15/T1, bounds.** For every parameter vector (any `inRow`, `outRow`), every softmax-like and
 sigmoid-like function and EVERY input `x` (also the missing value), the output lies in
 `[keypoint_output_min, keypoint_output_max]` — provided a user-fixed `missing_output_value`, which is
-returned verbatim (`C15_T1_missing`), was chosen inside that range. -/
+returned verbatim (`C15_T1_missing`), was chosen inside that range. `hmo` is NOT implied by acceptance
+(by design upstream, see `fixed_missing_output_outside_range_accepted`); the hypothesis-free forms are
+`C15_T1_bounded_calibrated`, `C15_T1_bounded_derived_missing` and `C15_T1_fixed_missing_exact`. -/
 theorem C15_T1_bounded (hsm : SoftmaxLike sm) (hsg : SigmoidLike sg) (hv : ValidPwl cfg n outRow.length)
     (hin : inRow.length + 1 = n)
     (hmo : ∀ v, cfg.missingOutput = some v → cfg.outMin ≤ v ∧ v ≤ cfg.outMax) (x : ℚ) :
@@ -129,6 +131,45 @@ theorem C15_T1_missing (v : ℚ) (hm : cfg.missingInput = some v) :
   unfold pwlFn1
   cases hmv : cfg.missingOutput <;> simp [missingOut, hm, hmv]
 
+/-! ### the bounds clause and the missing output, precisely
+
+`C15_T1_bounded` above carries `hmo` (a user-fixed `missing_output_value` lies inside the output range).
+Acceptance does NOT imply it and is not meant to: `_verify_pwl_calibration` never compares
+`missing_output_value` with the output range, and upstream's own
+`conditional_pwl_calibration_test.py` calls `pwl_calibration_fn` with the default range `[0, 1]` and
+`missing_output_value=3.0` and EXPECTS the output `3.0`. So the property's bounds clause is about
+calibrated (non-missing) inputs and about the DERIVED missing output; a fixed missing output is
+returned verbatim. The three theorems below say exactly that, without `hmo`. -/
+
+/-- **C15/T1, bounds at every non-missing input** — no hypothesis about `missing_output_value`. -/
+theorem C15_T1_bounded_calibrated (hsm : SoftmaxLike sm) (hsg : SigmoidLike sg)
+    (hv : ValidPwl cfg n outRow.length) (hin : inRow.length + 1 = n) (x : ℚ)
+    (hx : cfg.missingInput ≠ some x) :
+    cfg.outMin ≤ pwlFn1 cfg sm sg inRow outRow x ∧ pwlFn1 cfg sm sg inRow outRow x ≤ cfg.outMax := by
+  rw [pwlFn1_not_missing cfg sm sg inRow outRow x hx]
+  exact calibrated_bounded cfg sm sg inRow outRow n hsm hsg hv hin x
+
+/-- **C15/T1, bounds at EVERY input (the missing value included) when the missing output is derived**
+(`missing_output_value=None`: `keypoint_output_min + sigmoid(last parameter)·range`) or when there is no
+missing value at all. -/
+theorem C15_T1_bounded_derived_missing (hsm : SoftmaxLike sm) (hsg : SigmoidLike sg)
+    (hv : ValidPwl cfg n outRow.length) (hin : inRow.length + 1 = n) (hnone : cfg.missingOutput = none)
+    (x : ℚ) :
+    cfg.outMin ≤ pwlFn1 cfg sm sg inRow outRow x ∧ pwlFn1 cfg sm sg inRow outRow x ≤ cfg.outMax :=
+  C15_T1_bounded cfg sm sg inRow outRow n hsm hsg hv hin (fun v hvv => by rw [hnone] at hvv; cases hvv) x
+
+/-- **C15/T1, a FIXED `missing_output_value` is returned verbatim** at the missing input value — whatever
+the parameters — and therefore lies inside `[keypoint_output_min, keypoint_output_max]` **iff** the
+configured value does. -/
+theorem C15_T1_fixed_missing_exact (v mo : ℚ) (hm : cfg.missingInput = some v)
+    (hmo : cfg.missingOutput = some mo) :
+    pwlFn1 cfg sm sg inRow outRow v = mo ∧
+    ((cfg.outMin ≤ pwlFn1 cfg sm sg inRow outRow v ∧ pwlFn1 cfg sm sg inRow outRow v ≤ cfg.outMax) ↔
+      (cfg.outMin ≤ mo ∧ mo ≤ cfg.outMax)) := by
+  have e : pwlFn1 cfg sm sg inRow outRow v = mo := by
+    rw [C15_T1_missing cfg sm sg inRow outRow v hm, hmo]
+  exact ⟨e, by rw [e]⟩
+
 /-- **C15/T1, bookkeeping.** For every clamp / cyclic / missing combination that
 `_verify_pwl_calibration` accepts, `output_param_size` parameters produce — after the front padding,
 the clamp padding, the cyclic closing and the dropped entries — exactly one kernel entry per keypoint,
@@ -194,12 +235,173 @@ theorem C15_T1_call_bounded (hsm : SoftmaxLike sm) (hsg : SigmoidLike sg)
       rw [← hr2]
       simp [numKeypoints, hin rows rfl r (mem_tileUnits _ _ _ hr)]
 
+/-! ### from the function the driver runs (`pwlFnRow`, all units of one example) to `pwlFn1` per unit -/
+
+/-- the input unit `u` sees: a single input column is tiled over the units -/
+theorem tileInputs_single (units : Nat) (x : ℚ) (u : Nat) (hu : u < units) :
+    getR (tileInputs units [x]) u = x := by
+  unfold tileInputs getR
+  rw [List.getD_eq_getElem?_getD, List.getElem?_replicate]
+  simp [hu]
+
+theorem tileInputs_many (units : Nat) (xs : List ℚ) (h : xs.length ≠ 1) : tileInputs units xs = xs := by
+  unfold tileInputs
+  split
+  · simp at h
+  · rfl
+
+/-- **the bridge (row 36).** Whenever the whole call returns, it returns one output per unit, and output
+`u` IS `pwlFn1` on unit `u`'s own padded input-logit row and output-parameter row (after the tiling of
+size-1 unit axes) at unit `u`'s input — with exactly the hypotheses the one-unit theorems need
+(`ValidPwl`, `inRow.length + 1 = n`) already established by the call's own verification. Hence
+`C15_T1_monotone / clamp_min / clamp_max / cyclic / missing / bounded_*` apply to every entry of the
+result the driver op `alt.pwlfn` prints. -/
+theorem pwlFnRow_entries (inParams : Option (List (List ℚ))) (r3 : Bool) (outParams : List (List ℚ))
+    (xs ys : List ℚ)
+    (hin : ∀ rows, inParams = some rows → ∀ r ∈ rows, r.length = (rows.headD []).length)
+    (hout : ∀ r ∈ outParams, r.length = (outParams.headD []).length)
+    (h : pwlFnRow cfg sm sg inParams r3 outParams xs = .ok ys) :
+    ys.length = cfg.units ∧ ∀ u, u < cfg.units →
+      getR ys u = pwlFn1 cfg sm sg ((inputRows cfg inParams).getD u []) ((tileUnits cfg.units outParams).getD u [])
+        (getR (tileInputs cfg.units xs) u) ∧
+      ValidPwl cfg (numKeypoints (inParams.map (fun r => (r.headD []).length)))
+        ((tileUnits cfg.units outParams).getD u []).length ∧
+      ((inputRows cfg inParams).getD u []).length + 1 = numKeypoints (inParams.map (fun r => (r.headD []).length)) := by
+  unfold pwlFnRow at h
+  simp only [bind, Except.bind] at h
+  split at h
+  · cases h
+  · rename_i v hver
+    have hv := verify_ok_valid cfg _ r3 _ _ _ hver
+    split_ifs at h with hc
+    simp only [pure, Except.pure, Except.ok.injEq] at h
+    have hc' : (inputRows cfg inParams).length = cfg.units ∧ (tileUnits cfg.units outParams).length = cfg.units := by
+      constructor <;> by_contra hne <;> exact hc (by simp [hne])
+    refine ⟨by rw [← h]; simp, fun u hu => ⟨?_, ?_, ?_⟩⟩
+    · rw [← h]
+      unfold getR
+      rw [List.getD_eq_getElem?_getD, List.getElem?_map, List.getElem?_range hu]
+      rfl
+    · have ho_mem : (tileUnits cfg.units outParams).getD u [] ∈ outParams := by
+        apply mem_tileUnits cfg.units
+        rw [List.getD_eq_getElem?_getD, List.getElem?_eq_getElem (by rw [hc'.2]; exact hu), Option.getD_some]
+        exact List.getElem_mem _
+      rw [hout _ ho_mem]; exact hv
+    · have hi_mem : (inputRows cfg inParams).getD u [] ∈ inputRows cfg inParams := by
+        rw [List.getD_eq_getElem?_getD, List.getElem?_eq_getElem (by rw [hc'.1]; exact hu), Option.getD_some]
+        exact List.getElem_mem _
+      generalize (inputRows cfg inParams).getD u [] = inRow at hi_mem ⊢
+      cases inParams with
+      | none =>
+        simp only [inputRows, List.mem_replicate] at hi_mem
+        rw [hi_mem.2]; rfl
+      | some rows =>
+        simp only [inputRows, List.mem_map] at hi_mem
+        obtain ⟨r, hr, hr2⟩ := hi_mem
+        rw [← hr2]
+        simp [numKeypoints, hin rows rfl r (mem_tileUnits _ _ _ hr)]
+
+/-- **C15/T1, bounds, whole call, WITHOUT a hypothesis on `missing_output_value`.** Every output of every
+successful call lies in `[keypoint_output_min, keypoint_output_max]` — except that a unit whose input
+equals `missing_input_value` returns the user-fixed `missing_output_value` verbatim when one is
+configured (`C15_T1_fixed_missing_exact`; inside the range iff that value is). -/
+theorem C15_T1_call_bounded_or_fixed_missing (hsm : SoftmaxLike sm) (hsg : SigmoidLike sg)
+    (inParams : Option (List (List ℚ))) (r3 : Bool) (outParams : List (List ℚ)) (xs ys : List ℚ)
+    (hin : ∀ rows, inParams = some rows → ∀ r ∈ rows, r.length = (rows.headD []).length)
+    (hout : ∀ r ∈ outParams, r.length = (outParams.headD []).length)
+    (h : pwlFnRow cfg sm sg inParams r3 outParams xs = .ok ys) (u : Nat) (hu : u < cfg.units) :
+    (cfg.outMin ≤ getR ys u ∧ getR ys u ≤ cfg.outMax) ∨
+    (∃ mo, cfg.missingOutput = some mo ∧ cfg.missingInput = some (getR (tileInputs cfg.units xs) u) ∧
+      getR ys u = mo) := by
+  obtain ⟨-, he⟩ := pwlFnRow_entries cfg sm sg inParams r3 outParams xs ys hin hout h
+  obtain ⟨e, hv, hl⟩ := he u hu
+  rw [e]
+  by_cases hx : cfg.missingInput = some (getR (tileInputs cfg.units xs) u)
+  · cases hmo : cfg.missingOutput with
+    | none =>
+      exact Or.inl (C15_T1_bounded_derived_missing cfg sm sg _ _ _ hsm hsg hv hl hmo _)
+    | some mo =>
+      exact Or.inr ⟨mo, rfl, hx, (C15_T1_fixed_missing_exact cfg sm sg _ _ _ mo hx hmo).1⟩
+  · exact Or.inl (C15_T1_bounded_calibrated cfg sm sg _ _ _ hsm hsg hv hl _ hx)
+
+/-- **C15/T1, monotone, whole call.** Two calls with the same parameters: if unit `u`'s input does not
+decrease (neither being the missing value) and `monotonicity='increasing'`, unit `u`'s output does not
+decrease — for every unit, every parameter tensor, all pairs of inputs. -/
+theorem C15_T1_call_monotone (hsm : SoftmaxLike sm)
+    (inParams : Option (List (List ℚ))) (r3 : Bool) (outParams : List (List ℚ)) (xs xs' ys ys' : List ℚ)
+    (hin : ∀ rows, inParams = some rows → ∀ r ∈ rows, r.length = (rows.headD []).length)
+    (hout : ∀ r ∈ outParams, r.length = (outParams.headD []).length)
+    (hinc : cfg.increasing = true)
+    (h : pwlFnRow cfg sm sg inParams r3 outParams xs = .ok ys)
+    (h' : pwlFnRow cfg sm sg inParams r3 outParams xs' = .ok ys') (u : Nat) (hu : u < cfg.units)
+    (hxy : getR (tileInputs cfg.units xs) u ≤ getR (tileInputs cfg.units xs') u)
+    (hx : cfg.missingInput ≠ some (getR (tileInputs cfg.units xs) u))
+    (hy : cfg.missingInput ≠ some (getR (tileInputs cfg.units xs') u)) :
+    getR ys u ≤ getR ys' u := by
+  obtain ⟨e, hv, hl⟩ := (pwlFnRow_entries cfg sm sg inParams r3 outParams xs ys hin hout h).2 u hu
+  obtain ⟨e', -, -⟩ := (pwlFnRow_entries cfg sm sg inParams r3 outParams xs' ys' hin hout h').2 u hu
+  rw [e, e']
+  exact C15_T1_monotone cfg sm sg _ _ _ hsm hv hl hinc _ _ hxy hx hy
+
+/-- **C15/T1, clamps, whole call.** With `clamp_min` (`clamp_max`) every unit whose input is at or left of
+`keypoint_input_min` (at or right of `keypoint_input_max`) returns EXACTLY `keypoint_output_min`
+(`keypoint_output_max`). -/
+theorem C15_T1_call_clamps (hsm : SoftmaxLike sm)
+    (inParams : Option (List (List ℚ))) (r3 : Bool) (outParams : List (List ℚ)) (xs ys : List ℚ)
+    (hin : ∀ rows, inParams = some rows → ∀ r ∈ rows, r.length = (rows.headD []).length)
+    (hout : ∀ r ∈ outParams, r.length = (outParams.headD []).length)
+    (h : pwlFnRow cfg sm sg inParams r3 outParams xs = .ok ys) (u : Nat) (hu : u < cfg.units)
+    (hxm : cfg.missingInput ≠ some (getR (tileInputs cfg.units xs) u)) :
+    (cfg.clampMin = true → getR (tileInputs cfg.units xs) u ≤ cfg.inMin → getR ys u = cfg.outMin) ∧
+    (cfg.clampMax = true → cfg.inMax ≤ getR (tileInputs cfg.units xs) u → getR ys u = cfg.outMax) := by
+  obtain ⟨e, hv, hl⟩ := (pwlFnRow_entries cfg sm sg inParams r3 outParams xs ys hin hout h).2 u hu
+  rw [e]
+  exact ⟨fun hc hx => C15_T1_clamp_min cfg sm sg _ _ _ hsm hv hl hc _ hx hxm,
+    fun hc hx => C15_T1_clamp_max cfg sm sg _ _ _ hsm hv hl hc _ hx hxm⟩
+
+/-- **C15/T1, cyclic, whole call.** With `is_cyclic`, a unit fed an input at or left of
+`keypoint_input_min` in one call and at or right of `keypoint_input_max` in another (same parameters)
+returns the same value. -/
+theorem C15_T1_call_cyclic (hsm : SoftmaxLike sm)
+    (inParams : Option (List (List ℚ))) (r3 : Bool) (outParams : List (List ℚ)) (xs xs' ys ys' : List ℚ)
+    (hin : ∀ rows, inParams = some rows → ∀ r ∈ rows, r.length = (rows.headD []).length)
+    (hout : ∀ r ∈ outParams, r.length = (outParams.headD []).length)
+    (hcy : cfg.cyclic = true)
+    (h : pwlFnRow cfg sm sg inParams r3 outParams xs = .ok ys)
+    (h' : pwlFnRow cfg sm sg inParams r3 outParams xs' = .ok ys') (u : Nat) (hu : u < cfg.units)
+    (hx : getR (tileInputs cfg.units xs) u ≤ cfg.inMin) (hy : cfg.inMax ≤ getR (tileInputs cfg.units xs') u)
+    (hxm : cfg.missingInput ≠ some (getR (tileInputs cfg.units xs) u))
+    (hym : cfg.missingInput ≠ some (getR (tileInputs cfg.units xs') u)) :
+    getR ys u = getR ys' u := by
+  obtain ⟨e, hv, hl⟩ := (pwlFnRow_entries cfg sm sg inParams r3 outParams xs ys hin hout h).2 u hu
+  obtain ⟨e', -, -⟩ := (pwlFnRow_entries cfg sm sg inParams r3 outParams xs' ys' hin hout h').2 u hu
+  rw [e, e']
+  exact C15_T1_cyclic cfg sm sg _ _ _ hsm hv hl hcy _ _ hx hy hxm hym
+
+/-- **C15/T1, missing, whole call.** A unit whose input equals `missing_input_value` returns the missing
+output (fixed value, or derived from ITS OWN last output parameter). -/
+theorem C15_T1_call_missing (inParams : Option (List (List ℚ))) (r3 : Bool) (outParams : List (List ℚ))
+    (xs ys : List ℚ)
+    (hin : ∀ rows, inParams = some rows → ∀ r ∈ rows, r.length = (rows.headD []).length)
+    (hout : ∀ r ∈ outParams, r.length = (outParams.headD []).length)
+    (h : pwlFnRow cfg sm sg inParams r3 outParams xs = .ok ys) (u : Nat) (hu : u < cfg.units)
+    (hm : cfg.missingInput = some (getR (tileInputs cfg.units xs) u)) :
+    getR ys u =
+      match cfg.missingOutput with
+      | some mo => mo
+      | none => cfg.outMin + sg (((tileUnits cfg.units outParams).getD u []).getLastD 0) * (cfg.outMax - cfg.outMin) := by
+  obtain ⟨e, -, -⟩ := (pwlFnRow_entries cfg sm sg inParams r3 outParams xs ys hin hout h).2 u hu
+  rw [e]
+  exact C15_T1_missing cfg sm sg _ _ _ hm
+
 end pwl
 
 /-! ## T3 — documented call forms -/
 
 /-- **C15/T3.** Omitted interior keypoint parameters (`keypoint_input_parameters=None`, two fixed
-keypoints) are accepted: whenever the verification passes, the call returns one output per unit. -/
+keypoints) are accepted: whenever the verification passes, the call returns one output per unit.
+(WHEN the verification passes is `C15_T3_accepted_iff`; `C15_T3_none_accepted_forms` is this theorem
+with the acceptance derived from the values and the call form.) -/
 theorem C15_T3_none_accepted (cfg : PwlFnCfg) (sm : List ℚ → List ℚ) (sg : ℚ → ℚ) (r3 : Bool)
     (outParams : List (List ℚ)) (xs : List ℚ) (hu : 1 ≤ cfg.units) (hr2 : r3 = false → outParams.length = 1)
     (h : verifyPwlFn cfg none r3 outParams.length (outParams.headD []).length xs.length = .ok ()) :
@@ -244,6 +446,160 @@ theorem C15_T3_none_accepted (cfg : PwlFnCfg) (sm : List ℚ → List ℚ) (sg :
 /-- two keypoints, `None` interior parameters, every mode: the model accepts (non-vacuity of T3) -/
 example : verifyPwlFn ⟨0, 1, 0, 1, 2, true, true, false, false, some (-1), none⟩ none true 2 2 1 = .ok () := by
   decide +kernel
+
+/-! ### WHICH call forms are accepted: `_verify_pwl_calibration` as an iff
+
+The docstring of `pwl_calibration_fn` lists six shapes for `keypoint_output_parameters`:
+`(1, P)`, `(batch, P)`, `(1, 1, P)`, `(batch, 1, P)`, `(1, units, P)`, `(batch, units, P)` and says the
+shapes "need to be broadcast friendly with `(batch_size, units, 1)`: `(1 or batch_size, 1 or units, P)`".
+The two rank-2 shapes are accepted **only for `units == 1`**: for `units > 1` the verification raises
+`ValueError("keypoint_output_parameters should be 3 dimensional when units > 1")` — a deliberate check
+with its own message, pinned by upstream's `conditional_pwl_calibration_test.test_suite_raises` (the call
+with `units=3` and the rank-2 `kernel_4` must raise). So this is the documented behaviour read together
+with the stated broadcast rule, not a finding; `FormOk` states the accepted forms and
+`C15_T3_accepted_iff` proves that nothing else is accepted and nothing accepted is rejected. -/
+
+/-- the value checks of `_verify_pwl_calibration` (independent of the tensor shapes) -/
+def ConfigOk (cfg : PwlFnCfg) (inLast : Option Nat) : Prop :=
+  cfg.inMin < cfg.inMax ∧
+  (cfg.increasing = false → cfg.clampMin = false ∧ cfg.clampMax = false) ∧
+  cfg.outMin ≤ cfg.outMax ∧
+  (cfg.increasing = true → cfg.cyclic = false) ∧
+  (cfg.missingOutput.isSome = true → cfg.missingInput.isSome = true) ∧
+  0 < outputParamSize cfg inLast
+
+/-- the accepted call forms: rank-2 output parameters only for one unit; a rank-3 unit axis of size 1 or
+`units`; the last axis `output_param_size`; one input column or one per unit -/
+def FormOk (cfg : PwlFnCfg) (inLast : Option Nat) (outRank3 : Bool) (outRows outLast inputCols : Nat) : Prop :=
+  (outRank3 = false → cfg.units ≤ 1) ∧
+  (outRank3 = true → outRows = 1 ∨ outRows = cfg.units) ∧
+  (outLast : Int) = outputParamSize cfg inLast ∧
+  (inputCols ≤ 1 ∨ inputCols = cfg.units)
+
+theorem ite_ok_or_valueError {c : Prop} [Decidable c] {a : Except Err Unit}
+    (ha : a = .ok () ∨ a = .error .valueError) :
+    (if c then .error .valueError else a) = .ok () ∨ (if c then .error .valueError else a) = .error .valueError := by
+  by_cases h : c
+  · rw [if_pos h]; exact Or.inr rfl
+  · rw [if_neg h]; exact ha
+
+/-- **C15/T3, the accepted call forms, exactly.** `_verify_pwl_calibration` accepts **iff** the values are
+consistent (`ConfigOk`) and the call form is one of `FormOk`; every rejection is a `ValueError`. -/
+theorem C15_T3_accepted_iff (cfg : PwlFnCfg) (inLast : Option Nat) (r3 : Bool) (rows outLast cols : Nat) :
+    (verifyPwlFn cfg inLast r3 rows outLast cols = .ok () ↔
+      ConfigOk cfg inLast ∧ FormOk cfg inLast r3 rows outLast cols) ∧
+    (verifyPwlFn cfg inLast r3 rows outLast cols = .ok () ∨
+      verifyPwlFn cfg inLast r3 rows outLast cols = .error .valueError) := by
+  refine ⟨⟨fun h => ?_, fun h => ?_⟩, ?_⟩
+  · unfold verifyPwlFn at h
+    split_ifs at h with h1 h2 h3 h4 h5 h6 h7 h8 h9 h10
+    refine ⟨⟨not_le.mp h1, ?_, not_lt.mp h3, ?_, ?_, by omega⟩, ?_, ?_, not_not.mp h9, ?_⟩
+    · intro hi
+      simp only [hi, Bool.not_false, Bool.true_and, Bool.or_eq_true, not_or] at h2
+      exact ⟨by simpa using h2.1, by simpa using h2.2⟩
+    · intro hi; simpa [hi] using h4
+    · intro ho
+      simp only [ho, Bool.true_and] at h5
+      cases hm : cfg.missingInput <;> simp [hm] at h5 ⊢
+    · intro hr; simpa [hr] using h7
+    · intro hr
+      simp only [hr, Bool.true_and, decide_eq_true_eq, not_and, not_not] at h8
+      by_cases h1' : rows = 1
+      · exact Or.inl h1'
+      · exact Or.inr (h8 h1')
+    · simp only [Bool.and_eq_true, decide_eq_true_eq, not_and, not_not] at h10
+      by_cases hc : cols > 1
+      · exact Or.inr (h10 hc)
+      · exact Or.inl (by omega)
+  · obtain ⟨⟨c1, c2, c3, c4, c5, c6⟩, f1, f2, f3, f4⟩ := h
+    unfold verifyPwlFn
+    have n1 : ¬ cfg.inMin ≥ cfg.inMax := not_le.mpr c1
+    have n2 : ¬ ((!cfg.increasing && (cfg.clampMin || cfg.clampMax)) = true) := by
+      cases hi : cfg.increasing
+      · obtain ⟨a, b⟩ := c2 hi; simp [a, b]
+      · simp
+    have n3 : ¬ cfg.outMin > cfg.outMax := not_lt.mpr c3
+    have n4 : ¬ ((cfg.increasing && cfg.cyclic) = true) := by
+      cases hi : cfg.increasing
+      · simp
+      · simp [c4 hi]
+    have n5 : ¬ ((cfg.missingOutput.isSome && cfg.missingInput.isNone) = true) := by
+      cases ho : cfg.missingOutput.isSome
+      · simp
+      · have := c5 ho
+        cases hm : cfg.missingInput <;> simp [hm] at this ⊢
+    have n6 : ¬ outputParamSize cfg inLast ≤ 0 := by omega
+    have n7 : ¬ ((decide (cfg.units > 1) && !r3) = true) := by
+      cases hr : r3
+      · have := f1 hr; simp; omega
+      · simp
+    have n8 : ¬ ((r3 && decide (rows ≠ 1 ∧ rows ≠ cfg.units)) = true) := by
+      cases hr : r3
+      · simp
+      · rcases f2 hr with e | e <;> simp [e]
+    have n9 : ¬ ((outLast : Int) ≠ outputParamSize cfg inLast) := not_not.mpr f3
+    have n10 : ¬ ((decide (cols > 1) && decide (cols ≠ cfg.units)) = true) := by
+      rcases f4 with e | e
+      · have : ¬ cols > 1 := by omega
+        simp [this]
+      · simp [e]
+    rw [if_neg n1, if_neg n2, if_neg n3, if_neg n4, if_neg n5, if_neg n6, if_neg n7, if_neg n8, if_neg n9,
+      if_neg n10]
+  · unfold verifyPwlFn
+    repeat' apply ite_ok_or_valueError
+    exact Or.inl rfl
+
+/-- **C15/T3, the six documented shapes of `keypoint_output_parameters`** (one example of the batch; `P` =
+`output_param_size`; consistent values; one input column or one per unit): the rank-3 shapes with a unit
+axis of size 1 or `units` are accepted for EVERY number of units; the rank-2 shapes `(1, P)` / `(batch, P)`
+are accepted iff `units ≤ 1`, and rejected with a `ValueError` for `units > 1` ("should be 3 dimensional
+when units > 1"). -/
+theorem C15_T3_documented_output_forms (cfg : PwlFnCfg) (inLast : Option Nat) (P cols : Nat)
+    (hc : ConfigOk cfg inLast) (hP : (P : Int) = outputParamSize cfg inLast)
+    (hcols : cols ≤ 1 ∨ cols = cfg.units) :
+    verifyPwlFn cfg inLast true 1 P cols = .ok () ∧
+    verifyPwlFn cfg inLast true cfg.units P cols = .ok () ∧
+    (verifyPwlFn cfg inLast false 1 P cols = .ok () ↔ cfg.units ≤ 1) ∧
+    (1 < cfg.units → verifyPwlFn cfg inLast false 1 P cols = .error .valueError) := by
+  have iff := fun r3 rows => (C15_T3_accepted_iff cfg inLast r3 rows P cols).1
+  refine ⟨(iff true 1).mpr ⟨hc, by simp, fun _ => Or.inl rfl, hP, hcols⟩,
+    (iff true cfg.units).mpr ⟨hc, by simp, fun _ => Or.inr rfl, hP, hcols⟩,
+    ⟨fun h => ((iff false 1).mp h).2.1 rfl, fun h => (iff false 1).mpr ⟨hc, fun _ => h, by simp, hP, hcols⟩⟩,
+    fun hu => ?_⟩
+  rcases (C15_T3_accepted_iff cfg inLast false 1 P cols).2 with h | h
+  · have := ((iff false 1).mp h).2.1 rfl; omega
+  · exact h
+
+/-- **C15/T3, omitted interior keypoint parameters, with the acceptance DERIVED.** For consistent values,
+`keypoint_input_parameters=None` and any accepted form of the output parameters (`FormOk` with two
+keypoints), the call returns one output per unit — no acceptance hypothesis. -/
+theorem C15_T3_none_accepted_forms (cfg : PwlFnCfg) (sm : List ℚ → List ℚ) (sg : ℚ → ℚ) (r3 : Bool)
+    (outParams : List (List ℚ)) (xs : List ℚ) (hu : 1 ≤ cfg.units) (hr2 : r3 = false → outParams.length = 1)
+    (hc : ConfigOk cfg none)
+    (hf : FormOk cfg none r3 outParams.length (outParams.headD []).length xs.length) :
+    ∃ ys, pwlFnRow cfg sm sg none r3 outParams xs = .ok ys ∧ ys.length = cfg.units :=
+  C15_T3_none_accepted cfg sm sg r3 outParams xs hu hr2
+    ((C15_T3_accepted_iff cfg none r3 outParams.length (outParams.headD []).length xs.length).1.mpr ⟨hc, hf⟩)
+
+/-- non-vacuity: `units = 3`, clamps, derived missing output, `None` interior parameters — `ConfigOk`, the
+rank-3 forms accepted, the rank-2 form rejected -/
+example :
+    let cfg : PwlFnCfg := ⟨0, 1, 0, 1, 3, true, true, false, false, some (-1), none⟩
+    verifyPwlFn cfg none true 1 2 1 = .ok () ∧ verifyPwlFn cfg none true 3 2 3 = .ok () ∧
+    verifyPwlFn cfg none false 1 2 1 = .error .valueError := by decide +kernel
+
+/-- **a fixed `missing_output_value` outside the output range is ACCEPTED and returned (by design).** The
+call of upstream's `conditional_pwl_calibration_test.py`: default ranges `[0, 1]`, four keypoints,
+`missing_input_value=-1`, `missing_output_value=3` — the verification passes and the output at the
+missing input is `3 > keypoint_output_max`. Hence `hmo` of `C15_T1_bounded` does not follow from
+acceptance, and the bounds clause is `C15_T1_bounded_calibrated` / `_derived_missing` /
+`_call_bounded_or_fixed_missing`. -/
+theorem fixed_missing_output_outside_range_accepted :
+    let cfg : PwlFnCfg := ⟨0, 1, 0, 1, 1, false, false, false, false, some (-1), some 3⟩
+    verifyPwlFn cfg (some 2) false 1 4 1 = .ok () ∧
+    pwlFnRow cfg (fun l => l.map (fun _ => 1/3)) (fun _ => 1/2) (some [[0, 0]]) false [[0, 0, 0, 0]] [-1] = .ok [3] ∧
+    pwlFnRow cfg (fun l => l.map (fun _ => 1/3)) (fun _ => 1/2) (some [[0, 0]]) false [[0, 0, 0, 0]] [1/2]
+      = .ok [1/2] := by decide +kernel
 
 /-- **C15/T3, unit broadcast (fixed finding F-C15-c, ab7779b).** The documented form
 `(batch, 1, output_param_size)` — ONE parameter row for all `units > 1` — is accepted exactly when the
